@@ -442,3 +442,15 @@ package dispatch
 //@   ensures [a-new-rendering-is-returned] called("aggrGroup).renderRouteLabels") ==> result == ret("aggrGroup).renderRouteLabels")
 //@   ensures [nothing-to-render-for-an-empty-group] called("store.Alerts).List") && len(ret("store.Alerts).List")) == 0 ==> !called("aggrGroup).renderRouteLabels") && len(result) == 0
 //@   noeffect store.Alerts).List aggrGroup).renderRouteLabels
+
+// ---- C06 / C05 / C18: the dispatcher works on exactly what it was given: the provider it subscribes to, the routing
+// tree, the pipeline its groups flush through, the group marker, the limits (none = unlimited), at least two and at
+// most eight ingestion workers.
+//@ func NewDispatcher
+//@   props C06 C05 C14
+//@   nosafe
+//@   ensures [wired-as-given] result != nil && fresh(result) && result.alerts == alerts && result.route == route && result.stage == stage && result.marker == marker
+//@             && result.maintenanceInterval == maintenanceInterval && result.tmpl == tmpl && result.recorder == recorder
+//@   ensures [limits-as-given-or-none] limits != nil ==> result.limits == limits
+//@   ensures [two-to-eight-ingestion-workers] 2 <= result.concurrency && result.concurrency <= 8
+//@   ensures [not-yet-loaded] result.loaded != nil
